@@ -16,7 +16,7 @@ META = dict(
           'quantifier. Checked against REF-SYN: s.substitute(new, old); c >> q and q.unquantify(c) = substitution of c for the '
           'bound variable in the body; (~s).negative() = s and s.negative() = ~s otherwise; constants / variables / predicates / '
           'atomics (sets) and operators / quantifiers (prefix order) = the walk of the structure. The result is also required to '
-          'leave the original sentence unchanged. non-trivial = distinct (sentence, new, old) where old occurs in the sentence, '
+          'leave the original sentence unchanged. Units run under ITEM_CACHE_SIZE 1/3/50/1000 with unrelated constructions between building a sentence and substituting into it. non-trivial = distinct (sentence, new, old) where old occurs in the sentence, '
           'and distinct sentences with >= 2 nodes for the attribute checks.'),
     assumptions=['REF-SYN (vlib/ref/syn.py) reads sentences through plain attribute access only'],
     min_events={'quick': {'substitutions_checked': 40000, 'substitutions_changing': 10000, 'attribute_sets_checked': 8000,
@@ -53,10 +53,15 @@ def grow(level):
                 yield syn.quant(q, v, s)
 
 
+CACHE_SIZES = ('1', '3', '50', '1000')
+
+
 def units(tier, seed):
-    us = [dict(name='exh:0-1', kind='exh01')]
-    us += [dict(name=f'exh:2:{i}', kind='exh2', part=i, parts=16) for i in range(16)]
-    us += [dict(name=f'rnd:{i}', kind='rnd', idx=i) for i in range(16)]
+    # every unit runs under one construction-cache size; small caches make equal parameters distinct objects
+    # (evicted and rebuilt) between the construction of a sentence and the substitution into it
+    us = [dict(name=f'exh:0-1:cache{cs}', kind='exh01', env={'ITEM_CACHE_SIZE': cs}) for cs in CACHE_SIZES]
+    us += [dict(name=f'exh:2:{i}', kind='exh2', part=i, parts=16, env={'ITEM_CACHE_SIZE': CACHE_SIZES[i % 4]}) for i in range(16)]
+    us += [dict(name=f'rnd:{i}', kind='rnd', idx=i, env={'ITEM_CACHE_SIZE': CACHE_SIZES[i % 4]}) for i in range(16)]
     return us
 
 
@@ -104,6 +109,10 @@ def check_sentence(t, out, pairs, viol):
             viol('negative-wrong', t, None, f'negative() gave {n1}, expected {syn.negative(t)}', top=t[0])
         if n2 != t:
             viol('un-negating-a-negation-wrong', t, None, f'(~s).negative() gave {n2}', top=t[0])
+    # unrelated constructions, so that with a small cache the parameters handed to substitute() are rebuilt objects
+    for k in range(6):
+        syn.to_lib(('O', 'Conjunction', (('A', k % 5, 40 + k), ('P', (k % 4, 30 + k, 1), (('c', k % 4, 20 + k),)))))
+    out.cover('cache_sizes', _cache_size())
     # substitution
     for new, old in pairs:
         out.count('substitutions_checked')
@@ -139,6 +148,11 @@ def check_sentence(t, out, pairs, viol):
                 viol('unquantify-wrong', t, (c, t[2]), f'unquantify {syn.show(g1)}, >> {syn.show(g2)}, reference {syn.show(want_t)}', body=t[3][0])
 
 
+def _cache_size():
+    from pytableaux.lang.lex import LexicalAbc
+    return type(LexicalAbc).__call__._cache.queue.maxlen
+
+
 def rnd_sentence(rng, depth, scope=()):
     if depth <= 0 or rng.random() < 0.2:
         r = rng.random()
@@ -166,7 +180,8 @@ def run_unit(unit, out, tier, seed):
 
     def viol(clause, t, pair, msg, **diag):
         out.violation('syntax', dict(sentence=repr(t), shown=syn.show(t), pair=repr(pair)), dict(clause=clause, **diag),
-                      f'{syn.show(t)} [{pair}]: {clause}: {msg}', size=syn.size(t))
+                      f'{syn.show(t)} [{pair}]: {clause}: {msg}', size=syn.size(t),
+                      env={'ITEM_CACHE_SIZE': str(_cache_size())})
     L0 = leaves()
     L1 = list(grow(L0)) + [syn.op(o, p, q) for o in BIN for p in L0 for q in L0]
     kind = unit['kind']
